@@ -54,6 +54,8 @@ func main() {
 		os.Exit(cmdList(os.Args[2:]))
 	case "replay":
 		os.Exit(cmdReplay(os.Args[2:]))
+	case "sweepall":
+		os.Exit(cmdSweepAll(os.Args[2:]))
 	case "selftest":
 		os.Exit(cmdSelftest(os.Args[2:]))
 	default:
